@@ -40,6 +40,10 @@ CHECKS = {
          "All zones over an 11-name universe (cuts, glue, occluded data, nested cut, shared and two-level ENTs, wildcard, case twins, multi-window bitmaps, equal-RDATA unknown types, out-of-zone records): 82,944 zones quick / 746,496 thorough, x NSEC (DNSKEY assumed on/off) and 14/30 NSEC3 configs (salt x iterations x opt-out modes). Oracle written from RFC 4034/4035/5155 in the harness: own canonical order, cut/glue/occlusion predicates, ENT derivation, iterated SHA-1 + base32hex, bitmap codec; exact owner set, order, next pointers, bitmaps; and for every absent (name,type) over a 64-name closure x 12 types a matching-without-bit or covering record (incl. wrap-around, closest-encloser/next-closer for NSEC3, opt-out flag).",
          "ring SHA-1 as primitive; TTL values and NSEC3PARAM contents are not asserted (not in the property); an ENT derived only from opted-out delegations may be present or absent (RFC 5155 7.1).",
          "gramx", "DESIGN.md §3 C13"),
+ "C14": ("fault_enumeration", "exhaustive enumeration of every fault of an adversary menu at every position of every upstream response of signed test hierarchies, through the real validator, with an independent zone model and denial-proof checker as oracle",
+         "Five signed hierarchies root -> tld. -> zone.tld. (NSEC, NSEC3, insecure delegation under NSEC and NSEC3, NSEC3 opt-out; each with wildcard, ENT, CNAMEs) built with the library's signer; a deterministic upstream answers from the authentic data; 17 query kinds. For each (scenario, query) every fault of the menu (drop/replace/bit-flip RRset, RRSIG (all 13 fields), key, DS, proof records; expired / not-yet-valid re-signing; TTL 0 and raised; swapped NSEC/NSEC3; hostile NSEC3 owner labels; whole-response replacement; injected unsigned RRsets; forged child zone with same key tag) is applied at every position of the validated answer and of every DS/DNSKEY response, quick: all single faults on 4 scenarios + representative pairs (238 k evaluations); thorough: all singles on 5 scenarios + all pairs (5.3 M). Oracle: Secure (or AD) implies every RRset is authentic data with a currently valid authentic RRSIG and the negative claim is true with a complete proof; unmodified answers are Secure, Insecure below the insecure delegation, never Bogus; no panic, upstream-call budget, no hang.",
+         "The validator reads the wall clock: signatures are made around the real time and expiry faults are produced by re-signing; ring as trusted crypto primitive; C12 decides the signer's correctness separately.",
+         "gramx", "DESIGN.md §3 C14"),
  "C15": ("model_checking", "deviation-bounded exhaustive exploration (envx) of environment-answer sequences on the real client transports over mock sockets, hand-polled under tokio's paused clock",
          "Every environment-answer sequence with <=2 (quick) / <=3 (thorough) deviations from 'deliver intact, in order' for 1-3 concurrent callers (two with the same question; plus a 6-caller recycled-slot case) on the real stream, dgram, dgram_stream and multi_stream transports: per quiescent point the mock may deliver any open request's answer, a wrong-ID/wrong-question/header-only/QR=0/stale/duplicate reply, short or split frames at every cut point, EOF, read/write errors, partial writes, cancellation, timer ticks, connect refusal. Oracle: every request completes exactly once; Ok(m) is byte-identical to a message the mock delivered for THAT caller (ID read back from the bytes the code wrote, question matches or header-only error); Err only with an environmental cause and, on tokio-clock transports, within the retry/timeout budget; TC over datagram leads to a stream attempt; no panic or livelock.",
          "stream.rs measures its response/idle timeout with std::time::Instant, so stream timeouts are not exercised (every stream scenario ends by answer, error or EOF); redundant and load_balancer are not covered (unowned rand-driven probing); tokio current-thread, futures polled by the harness.",
